@@ -1,7 +1,7 @@
 (** C08 — TSM files and tombstones read back what was written.  Property theorems only.
     Models: Model/C08_File.v (bytes), Model/C08_Index.v (parsed index + deletes), Model/C08.v (specs, judge). *)
 From Verif Require Import Base.Prelude Base.C08_BE Model.C08_File Model.C08_Index Model.C08.
-From Verif Require Import Proofs.C08_Tomb Proofs.C08_Search Proofs.C08_Delete Proofs.C08_Reader.
+From Verif Require Import Proofs.C08_Tomb Proofs.C08_Search Proofs.C08_Delete Proofs.C08_Reader Proofs.C08_Tsm Proofs.C08_Writer.
 
 (** ** Framing integers *)
 Theorem C08_be_roundtrip : forall n v, (v < 256 ^ N.of_nat n)%N -> unbe (be n v) = v /\ length (be n v) = n.
@@ -11,6 +11,49 @@ Print Assumptions C08_be_roundtrip.
 Theorem C08_i64_roundtrip : forall z, in_i64 z -> uni64 (i64 z) = z.
 Proof. exact i64_rt. Qed.
 Print Assumptions C08_i64_roundtrip.
+
+(** ** TSM file round trip (byte level; the block checksum function is a parameter)
+    [gs]: per key the list of (min, max, block bytes).  [group_ok]: key non-empty and <= 65535 bytes,
+    at least one and at most 65535 blocks, each block starts with a valid block-type byte, block
+    min times non-decreasing.  [gsorted [] gs]: keys strictly increasing.  [fits]: every index entry
+    fits its field widths (int64 times, offset < 2^64, size < 2^32).
+    Then WriteBlock* + WriteIndex produce exactly header ++ (crc|block)* ++ index ++ footer, and
+    the reader (footer -> index slice -> parse -> readBytes at every entry) returns exactly the
+    keys, the type of each key's first block, the entries (min, max, offset, size), the checksums
+    and the block bytes that were written — for any number of keys and blocks. *)
+Section TsmRoundTrip.
+  Variable crc : bytes -> N.
+  Hypothesis crc_u32 : forall b, (crc b < 4294967296)%N.
+
+  Theorem C08_tsm_roundtrip : forall gs, gs <> [] -> gsorted [] gs -> Forall (group_ok) gs ->
+    Forall wf_ikey (ikeys_of crc 5 gs) ->
+    (N.of_nat (length (tsm_header ++ all_frames crc gs)) < 18446744073709551616)%N ->
+    tsm_write crc (calls_of gs) = Some (layout crc gs) /\
+    tsm_read (layout crc gs) = Some (expect crc 5 gs).
+  Proof.
+    intros gs Hne Hs Hok Hfit Hlen. split.
+    - apply tsm_write_layout; assumption.
+    - apply tsm_read_layout; assumption.
+  Qed.
+End TsmRoundTrip.
+Print Assumptions C08_tsm_roundtrip.
+
+(** the writer's limits.  Full statement wanted: [tsm_write] fails EXACTLY when some key is longer
+    than 65535 bytes, some key has more than 65535 blocks, or nothing was written.  Proved: success
+    inside the limits (above), and failure for an over-long key, for nothing written, and of the
+    flush of an over-full key; that an over-full key makes the whole [tsm_write] fail is tied only
+    by the driver's limit cases (65534..65537 blocks on the real writer). *)
+Theorem C08_writer_limits_partial : forall crc,
+  (forall cs, (exists c, In c cs /\ (65535 < N.of_nat (length (fst (fst (fst c)))))%N) -> tsm_write crc cs = None) /\
+  (forall s k mn mx b, (65535 < N.of_nat (length k))%N -> write_block crc s k mn mx b = (s, 1%N)) /\
+  (forall s, w_cnt s = 0%N -> write_index s = None) /\
+  (forall s, w_key s <> [] ->
+     (w_fail (flush s) = true <-> w_fail s = true \/ (65535 < N.of_nat (length (w_ents s)))%N)).
+Proof.
+  intro crc. split; [apply tsm_write_long_key|]. split; [intros; apply write_block_key_too_long; assumption|].
+  split; [apply write_index_no_values|apply flush_limit].
+Qed.
+Print Assumptions C08_writer_limits_partial.
 
 (** ** Index lookups agree with the written content (any number of keys) *)
 
@@ -163,6 +206,19 @@ Section Gzip.
 End Gzip.
 Print Assumptions C08_tombstone_file_roundtrip.
 Print Assumptions C08_tombstone_commit_atomic.
+
+(** Non-vacuity of the round trip: two keys, three blocks, with the real CRC-32. *)
+Example C08_roundtrip_nonvacuous :
+  let gs := [([97%N], [(1%Z, 2%Z, [0;7;7]%N); (3%Z, 4%Z, [0;9]%N)]); ([98%N; 1%N], [((-5)%Z, 9%Z, [1;1;1;1]%N)])] in
+  gsorted [] gs /\ Forall group_ok gs /\ Forall wf_ikey (ikeys_of crc32_ieee 5 gs) /\
+  tsm_write crc32_ieee (calls_of gs) = Some (layout crc32_ieee gs) /\
+  tsm_read (layout crc32_ieee gs) = Some (expect crc32_ieee 5 gs) /\ length (layout crc32_ieee gs) = 131%nat.
+Proof.
+  cbv zeta. split; [cbn; auto|]. split.
+  - repeat constructor; cbn; try discriminate; try lia; eexists; reflexivity.
+  - split; [|vm_compute; repeat split; reflexivity].
+    repeat constructor; cbn; unfold in_i64, MinInt64, MaxInt64; lia.
+Qed.
 
 (** Non-vacuity: a two-key index; lookups; a delete that coalesces into a full-key delete. *)
 Example C08_nonvacuous :
